@@ -1,7 +1,21 @@
 (* Extraction of the executable model and specs to OCaml (ExtrOcamlBasic only: bool, option, unit, list, prod,
    sumbool, sumor map to OCaml natives; N, positive, nat stay the extracted datatypes). *)
 From Coq Require Extraction ExtrOcamlBasic.
-From EC Require Import Base Model.Utf8 Model.Input Spec.Utf8Spec Spec.KeyUnits.
+From EC Require Import Base Model.Utf8 Model.Input Spec.Utf8Spec Spec.KeyUnits Model.Utils Model.Editor Model.Token Model.Args Model.History Model.Sink Model.Writer Model.Cli Model.Handler
+  Spec.QuoteSpec Spec.Framing Spec.Terminal Spec.IdealEditor Spec.HistSpec Spec.ArgSpec Spec.CompletionSpec.
 Extraction Language OCaml.
 Extraction "model.ml" Utf8.run Input.runa Input.ig0 Utf8.acc0 Utf8Spec.validb Utf8Spec.wf_charb
-  KeyUnits.bytes_of KeyUnits.events_of KeyUnits.wf_unitb KeyUnits.greedyb.
+  KeyUnits.bytes_of KeyUnits.events_of KeyUnits.wf_unitb KeyUnits.greedyb
+  Utils.char_count Utils.char_byte_index Utils.char_pop_front Utils.common_prefix_len Utils.encode_utf8 Utils.trim_start
+  Editor.ed_new Editor.ed_len Editor.ed_clear Editor.ed_insert Editor.ed_move_left Editor.ed_move_right Editor.ed_remove
+  Editor.ed_text_from Editor.ed_autocompletion Editor.ac_merge
+  Token.tokens_new Token.tokens_iter Token.join0
+  Args.args_of Args.ai_next Args.ai_new Args.ai_into_args Args.from_tokens Args.help_request
+  History.hist_new History.hist_push History.hist_older History.hist_newer
+  Cli.cli_init Cli.raw_cmdset Cli.api_build Cli.api_process_byte Cli.api_write Cli.api_set_prompt
+  Handler.handler_raw Handler.prompt_of Handler.PROMPTS Writer.title_hops Writer.list_element_hops Cli.set_sk
+  QuoteSpec.tokens_fun QuoteSpec.render_quoted Framing.frame_write Framing.frame_enter Framing.hops_bytes
+  Terminal.vterm0 Terminal.feed Terminal.term_lex Terminal.view_ok Terminal.visible
+  IdealEditor.ideal_step IdealEditor.ideal0 IdealEditor.ibytes
+  HistSpec.hs_push HistSpec.hs_older HistSpec.hs_newer HistSpec.hspec0
+  ArgSpec.classify_all ArgSpec.chars_of CompletionSpec.complete_spec.
